@@ -290,6 +290,71 @@ impl SemaphoreState {
     }
 }
 
+#[cfg(futures_intrusive_verif)]
+fn verif_node_info(node: &ListNode<WaitQueueEntry>) -> crate::verif::NodeInfo {
+    let (prev, next) = node.verif_links();
+    let (has_waker, waker_data) = crate::verif::waker_data(&node.task);
+    crate::verif::NodeInfo {
+        prev,
+        next,
+        state: match node.state {
+            PollState::New => 0,
+            PollState::Waiting => 1,
+            PollState::Notified => 2,
+            PollState::Done => 3,
+        },
+        has_waker,
+        waker_data,
+        arg: node.required_permits as u64,
+        ..Default::default()
+    }
+}
+
+#[cfg(futures_intrusive_verif)]
+impl SemaphoreState {
+    fn verif_inspect(
+        &self,
+        visit: &mut dyn FnMut(crate::verif::Visit) -> bool,
+    ) {
+        use crate::verif::{PrimInfo, Visit};
+        let (head, tail) = self.waiters.verif_ends();
+        visit(Visit::Prim(PrimInfo {
+            head,
+            tail,
+            fair: self.is_fair,
+            count: self.permits as u64,
+            ..Default::default()
+        }));
+        crate::verif::walk_list(&self.waiters, 0, visit, &verif_node_info);
+        visit(Visit::Done);
+    }
+}
+
+#[cfg(futures_intrusive_verif)]
+impl<MutexType: RawMutex> GenericSemaphore<MutexType> {
+    /// Reports the internal state while holding the internal lock
+    pub fn verif_inspect(
+        &self,
+        visit: &mut dyn FnMut(crate::verif::Visit) -> bool,
+    ) {
+        self.state.lock().verif_inspect(visit)
+    }
+}
+
+#[cfg(futures_intrusive_verif)]
+impl<'a, MutexType: RawMutex> GenericSemaphoreAcquireFuture<'a, MutexType> {
+    /// Address of the embedded wait node
+    pub fn verif_node_addr(&self) -> usize {
+        &self.wait_node as *const _ as usize
+    }
+
+    /// Content of the embedded wait node. Must only be called while no other
+    /// thread can access the node (e.g. from within `verif_inspect`)
+    pub unsafe fn verif_node_info(&self) -> crate::verif::NodeInfo {
+        verif_node_info(&self.wait_node)
+    }
+}
+
 /// An RAII guard returned by the `acquire` and `try_acquire` methods.
 ///
 /// When this structure is dropped (falls out of scope),
@@ -819,6 +884,31 @@ mod if_alloc {
         /// Returns the amount of permits that are available on the semaphore
         pub fn permits(&self) -> usize {
             self.state.lock().permits()
+        }
+    }
+
+    #[cfg(futures_intrusive_verif)]
+    impl<MutexType: RawMutex> GenericSharedSemaphore<MutexType> {
+        /// Reports the internal state while holding the internal lock
+        pub fn verif_inspect(
+            &self,
+            visit: &mut dyn FnMut(crate::verif::Visit) -> bool,
+        ) {
+            self.state.lock().verif_inspect(visit)
+        }
+    }
+
+    #[cfg(futures_intrusive_verif)]
+    impl<MutexType: RawMutex> GenericSharedSemaphoreAcquireFuture<MutexType> {
+        /// Address of the embedded wait node
+        pub fn verif_node_addr(&self) -> usize {
+            &self.wait_node as *const _ as usize
+        }
+
+        /// Content of the embedded wait node. Must only be called while no other
+        /// thread can access the node (e.g. from within `verif_inspect`)
+        pub unsafe fn verif_node_info(&self) -> crate::verif::NodeInfo {
+            verif_node_info(&self.wait_node)
         }
     }
 
